@@ -118,7 +118,7 @@ CHECKS.update({
    text="The Go weight assignment is NOT ported and no theorem is about it: every accepted real build (public Build, and through the hook every enumerated/sampled DFS start order) is compared node by node with the executable Lean specification of weights (Spec/Weights.lean), and the edge rule, absence of R# placeholders and of empty maps are evaluated on the real graph. Lean theorems (Props/C04.lean, kernel-checked on every run) show that the specification has the shape the property states: on every graph where the iteration reached a fixed point (evaluated per input by the driver) the weight map of each node is its strategy over its edges - edge = target (+1 saturating for hops, {T:1} into terminals), union/relation = pointwise max, intersection = common keys with max, exclusion = base keys with max - and an accepted graph has no empty map; and that these weights MEAN what the property says, stated without reference to any iteration (Spec/WeightsSem.lean: HasType = terminal type T reaches the node through any operand of a relation/union, every operand of an intersection, the base of an exclusion; Walk = a walk to a terminal T with k tuple hops): a node carries a weight for T iff T reaches it (weight_keys_exact), a finite weight is attained by a walk and no walk has more hops (finite_weight_is_max_hops), the weight is Infinite iff the hop counts of the walks are unbounded (infinite_weight_iff_unbounded, by pigeonhole and pumping), and whatever the specification computes is witnessed by a walk with no hypothesis at all (every_weight_witnessed). Their decidable hypotheses (fixed point reached, all values Infinite or below the saturation threshold) are evaluated by the driver on every input and an input outside them is counted as not covered. Inputs matching the open finding KF-C04-operand-grouping are recognised by an ungrouped variant of the specification that the code must then equal exactly.",
    design_ref="DESIGN.md §6.4", note=TV_NOTE, technique=SPEC_TECH),
  "C05": dict(category="translation_validation",
-   text="The real verdict under every enumerated/sampled depth-first start order is compared with the Lean well-foundedness specification; the error class must be one of the three sentinels. The Go algorithm is not ported. Lean theorems (Props/C05.lean) about the specification: accepted iff no node on a rewrite-only cycle, no intersection/exclusion on any cycle and every node reaches a terminal type (accepted_means); a graph containing a rewrite-only cycle is rejected whatever else it contains (rewrite_only_cycle_never_passes); the cycle test is sound (cycle_flag_sound) and, on graphs where every referenced node exists (evaluated per input), complete (cycle_flag_exact: the fuel of the search suffices).",
+   text="The real verdict under every enumerated/sampled depth-first start order is compared with the Lean well-foundedness specification; the error class must be one of the three sentinels. The Go algorithm is not ported. Lean theorems (Props/C05.lean) about the specification: accepted iff no node on a rewrite-only cycle, no intersection/exclusion on any cycle and every node reaches a terminal type (accepted_means); a graph containing a rewrite-only cycle is rejected whatever else it contains (rewrite_only_cycle_never_passes); the cycle test is sound (cycle_flag_sound) and, on graphs where every referenced node exists (evaluated per input), complete (cycle_flag_exact: the fuel of the search suffices); and, with the semantic reading of the weights proved for C04, accepted iff no node on a tuple-free cycle, no intersection/exclusion on any cycle and every node reached by some terminal user type through any operand of a relation/union, every operand of an intersection, the base of an exclusion (accepted_iff_well_founded, no_terminal_iff_unreached) - a statement that no longer mentions the computed weights.",
    design_ref="DESIGN.md §6.5", note=TV_NOTE, technique=SPEC_TECH),
  "C11": dict(category="translation_validation",
    text="Real wildcard lists of every node and edge, under every forced traversal order, must equal the specification's reachable-public-types sets exactly, have no duplicates, and every edge must equal its target ({T} into T:*). The Go propagation is not ported. Lean theorems (Props/C11.lean) about the specification: every listed type is a T:* restriction reachable by following edges (wildcard_set_sound), no duplicates (wildcard_set_no_duplicates), nothing reachable => empty (no_wildcard_reachable_empty), and on graphs where every referenced node exists (evaluated per input) every reachable T:* is listed, so the set is exactly the reachable public types (wildcard_set_exact).",
@@ -143,7 +143,7 @@ CHECKS.update({
 
 CHECKS.update({
  "C06": dict(category="translation_validation",
-   text="A schedule property of the Go code, decided by oracle on the real code: all builds of one model - repeated Build calls, every enumerated/sampled forced depth-first start order (hook), permuted type definitions, permuted union/intersection operands, 8 concurrent goroutines - must give the identical verdict and identical weights and wildcard sets on every node and edge. The Go algorithm is not ported. The specification the results are compared with has no schedule parameter; Lean theorems (Props/C06.lean) prove the one non-obvious clause about it: the merge of weight maps and the intersection combination do not depend on operand order (merge_order_irrelevant, intersection_order_irrelevant), every state of the iteration has sorted maps (result_is_sorted), so permuting the operands of a relation/union/group/intersection node leaves its weights unchanged (operand_order_irrelevant) and the solution of the model's equations is also the solution of the model with reordered operands (reordered_model_same_solution).",
+   text="A schedule property of the Go code, decided by oracle on the real code: all builds of one model - repeated Build calls, every enumerated/sampled forced depth-first start order (hook), permuted type definitions, permuted union/intersection operands, 8 concurrent goroutines - must give the identical verdict and identical weights and wildcard sets on every node and edge. The Go algorithm is not ported. The specification the results are compared with has no schedule parameter; Lean theorems (Props/C06.lean) prove the one non-obvious clause about it: the merge of weight maps and the intersection combination do not depend on operand order (merge_order_irrelevant, intersection_order_irrelevant), every state of the iteration has sorted maps (result_is_sorted), so permuting the operands of a relation/union/group/intersection node leaves its weights unchanged (operand_order_irrelevant) and the solution of the model's equations is also the solution of the model with reordered operands (reordered_model_same_solution). Since the weights are characterised semantically (C04), two graphs that mean the same get the same weights (weights_are_a_function_of_meaning): permuting the model's type definitions permutes the specification graph and leaves every node's weights unchanged (type_order_permutes_graph, type_order_irrelevant), and so does permuting the operands of relations/unions/intersections of the graph (reordered_same_weights); the convergence hypotheses are evaluated by the driver, also on the permuted model, whose answer line must be identical.",
    design_ref="DESIGN.md §6.6", note=TV_NOTE, technique=SPEC_TECH),
 })
 
